@@ -219,7 +219,7 @@ PROPS = {
         trusted_base=["pkg/runtime/agent.go (hooks), pkg/runtime/breakpoint.go transcribed by hand into theories/Runtime/Agent.v, Breakpoint.v", COMMON_MODEL],
     ),
     "C20": dict(
-        level_text="The locking protocol of the shared objects, extracted from /repo's current source on every run by a translator (go/parser + go/types): every root of execution (exported API, methods reached through interfaces, goroutine bodies, deferred closures) of the packages process, packet, port, types, encoding, store, symbol, runtime as control-flow paths of lock operations and accesses to the mutable fields of mutex-owning structs, callees inlined. Coq checks on that skeleton by computation: every such access holds the field's guard on the same object (exclusively for writes), no path re-takes, leaks or wrongly releases a lock, and the lock order between lock classes is acyclic; and a theorem proved once for any skeleton: in the interleaving semantics of any number of threads each running a checked path, no reachable state has two threads at conflicting accesses of one field, and no thread waits for a lock it holds. PARTIAL: what the lock protocol cannot see - data handed out of critical sections (slice and map contents, public fields of plain structs), channels, atomics, the Go memory model itself - is searched, not proved: contended workloads on one shared instance of each object (process-local store, processes, ports, writer/readers/tracer, node workflows with and without the agent and a frame watcher, store, symbol table, value maps and codec registries) run under the Go race detector with panic recovery and a watchdog.",
+        level_text="The locking protocol of the shared objects, extracted from /repo's current source on every run by a translator (go/parser + go/types): every root of execution (exported API, methods reached through interfaces, goroutine bodies, deferred closures) of the packages process, packet, port, types, encoding, store, symbol, runtime as control-flow paths of lock operations and accesses to the mutable fields of mutex-owning structs, callees inlined (within a package; across packages into pkg/process, whose exit hooks and process-local stores every other package runs into), a hook handed to a registrar that may call it before returning (Process.AddExitHook on a terminated process, Local.AddStoreHook when the value exists) also taken as a synchronous callback under the caller's locks. Coq checks on that skeleton by computation: every such access holds the field's guard on the same object (exclusively for writes), no path re-takes, leaks or wrongly releases a lock, and the lock order between lock classes is acyclic; and a theorem proved once for any skeleton: in the interleaving semantics of any number of threads each running a checked path, no reachable state has two threads at conflicting accesses of one field, and no thread waits for a lock it holds. PARTIAL: what the lock protocol cannot see - data handed out of critical sections (slice and map contents, public fields of plain structs), channels, atomics, the Go memory model itself - is searched, not proved: contended workloads on one shared instance of each object (process-local store, processes, ports, writer/readers/tracer, node workflows with and without the agent and a frame watcher, store, symbol table, value maps and codec registries) run under the Go race detector with panic recovery and a watchdog.",
         level_note="Partial as stated. Trusted: the translator (what it recognises as lock operation, field access, synchronous callback vs. deferred closure, constructor context; `base` expression text as object identity; loops as zero-or-one iteration; 3 documented exemptions; the allowed self-edge of Process) - a translator bug can hide a violation; Coq kernel + vm_compute; Go's race detector and the schedules it happens to see.",
         technique="Go-AST translator (regenerated every run) -> Coq lockset / lock-order obligations by vm_compute + Coq soundness theorem for the interleaving semantics (lock exclusion invariant) + race-detector workloads as search",
         quick_n=0, thorough_n=0, shard=1, harness=False, pre_build=c20_pre_build, pre=c20_pre, diagnose=c20_diagnose, standalone_props=True,
